@@ -271,7 +271,7 @@ B64Groups(s, i, acc) ==
        ELSE B64Groups(s, i + 4, acc \o <<n \div 65536, (n \div 256) % 256, n % 256>>)
 B64Decode(s) == IF Len(s) % 4 # 0 THEN [ok |-> FALSE, bytes |-> <<>>] ELSE B64Groups(s, 1, <<>>)
 RX == INSTANCE Regex
-TM == INSTANCE Time
+TM == INSTANCE Time WITH DevNoCenturyRule <- FALSE
 SX == INSTANCE ExprSyntax
 \* a number of seconds since the epoch as (day number, second of the day): digits divided by 86400 the long way (the seconds of the year 9999 are
 \* not a 32-bit number).  A fraction is only followed for dyadic numbers (the whole second is then the floor); the text is the whole
@@ -415,7 +415,12 @@ EvalCall(f, args, c) ==
     [] f = "base63_decode" -> IF IsU(a1) THEN Unspec ELSE IF a1.t # "str" THEN Nothing
                               ELSE LET b == B64Decode(a1.c) IN
                                    IF ~b.ok THEN Nothing ELSE LET u == Utf8Dec(b.bytes) IN IF u.ok THEN Str(u.c) ELSE Nothing
-    [] f = "env" -> IF IsU(a1) THEN Unspec ELSE IF a1.t = "str" THEN Unspec ELSE Nothing
+    \* "Get environment variable": the context brings the part of the environment that is known (c.env: [name, set, v]); a name it does not
+    \* list has no meaning here
+    [] f = "env" -> IF IsU(a1) THEN Unspec ELSE IF a1.t # "str" THEN Nothing
+                    ELSE IF "env" \in DOMAIN c /\ \E k \in 1..Len(c.env) : c.env[k].name = a1.c
+                         THEN LET en == c.env[CHOOSE k \in 1..Len(c.env) : c.env[k].name = a1.c] IN IF en.set THEN Str(en.v) ELSE Nothing
+                         ELSE Unspec
     \* "Parse a string into a new selection": the text is read the way --select reads its value (ExprSyntax.tla: an expression, then nothing or
     \* `=name`) and the selection is evaluated where the call stands - same input, parents and bindings.  A text the specification's reader
     \* refuses (it reads literals strictly) has no meaning here.
